@@ -964,15 +964,17 @@ class VizierServicer(vizier_service_pb2_grpc.VizierServiceServicer):
       context: Optional[grpc.ServicerContext] = None,
   ) -> vizier_service_pb2.UpdateMetadataResponse:
     """Stores the supplied metadata in the database."""
-    if self._study_is_immutable(request.name):
-      e = custom_errors.ImmutableStudyError(
-          'Study {} is immutable. Cannot update metadata.'.format(request.name)
-      )
-      grpc_util.handle_exception(e, context)
-
     # Other RPCs read-modify-write whole Study / Trial protos under this lock;
     # writing metadata outside of it would let them overwrite the update.
     with self._study_name_to_lock[request.name]:
+      if self._study_is_immutable(request.name):
+        e = custom_errors.ImmutableStudyError(
+            'Study {} is immutable. Cannot update metadata.'.format(
+                request.name
+            )
+        )
+        grpc_util.handle_exception(e, context)
+
       try:
         self.datastore.update_metadata(
             request.name,
